@@ -8,6 +8,8 @@ import (
 	"sort"
 	"strings"
 
+	"golang.org/x/tools/go/ssa"
+
 	"kverif/internal/an"
 	"kverif/internal/load"
 	"kverif/internal/oblig"
@@ -40,6 +42,8 @@ func runC04(p *load.Program, r *oblig.Report) {
 	c12LegacyNegotiate(p, r, "C04.R6 version gate")
 	c04Framing(p, r)
 	c04Primitives(p, r)
+	c04EmptyArray(p, r)
+	c17StaleSize(p, r, "C04.R8 the hand-written reader consumes exactly what it accounts for")
 }
 
 // c04Legacy, c04Framing, c04Primitives are defined in c04legacy.go / c04frame.go.
@@ -398,4 +402,63 @@ func uniq(s []string) []string {
 		}
 	}
 	return out
+}
+
+// c04EmptyArray: a decoded array of length zero must stay distinguishable from a null array (isNil false), in the
+// reflect build and in the unsafe build alike: makeArray never yields the representation isNil tests for.
+func c04EmptyArray(p *load.Program, r *oblig.Report) {
+	const rule = "C04.R9 an empty decoded array is not null"
+	mk := p.Func("protocol", "makeArray")
+	isNil := p.Func("protocol", "(array).isNil")
+	if mk == nil || isNil == nil {
+		r.Lost(rule, "protocol.makeArray / (array).isNil")
+		return
+	}
+	// which field does isNil look at?
+	field := ""
+	an.EachInstr(isNil, func(ins ssa.Instruction) {
+		switch x := ins.(type) {
+		case *ssa.Field:
+			field = an.FieldName(x.X.Type(), x.Field)
+		case *ssa.FieldAddr:
+			field = an.FieldName(x.X.Type(), x.Field)
+		}
+	})
+	var nilOrigins []string
+	n := 0
+	var visit func(v ssa.Value, seen map[ssa.Value]bool)
+	visit = func(v ssa.Value, seen map[ssa.Value]bool) {
+		if seen[v] {
+			return
+		}
+		seen[v] = true
+		switch x := v.(type) {
+		case *ssa.Phi:
+			for _, e := range x.Edges {
+				visit(e, seen)
+			}
+		case *ssa.Const:
+			if x.Value == nil {
+				nilOrigins = append(nilOrigins, "nil at "+p.Pos(mk.Pos()))
+			}
+		case *ssa.Convert:
+			visit(x.X, seen)
+		case *ssa.ChangeType:
+			visit(x.X, seen)
+		}
+	}
+	an.EachInstr(mk, func(ins ssa.Instruction) {
+		st, ok := ins.(*ssa.Store)
+		if !ok {
+			return
+		}
+		fa, ok := st.Addr.(*ssa.FieldAddr)
+		if !ok || an.FieldName(fa.X.Type(), fa.Field) != field {
+			return
+		}
+		n++
+		visit(st.Val, map[ssa.Value]bool{})
+	})
+	r.Check(field != "" && n > 0 && len(nilOrigins) == 0, rule, "protocol.makeArray never produces the value (array).isNil reports as null", p.Pos(mk.Pos()),
+		"array."+field+" is non-nil for every length, zero included", fmt.Sprintf("field %q, %d stores; %s", field, n, strings.Join(nilOrigins, "; ")))
 }
